@@ -10,6 +10,6 @@ Separate Extraction
   TTable.trans_of TTable.getfirststate TTable.wf_table
   TableInterp.table_interp
   PySM.gen_py PySM.parse_indent PySM.run_py PySM.code_lines
-  SmlTT.gen_sml
-  CsSM.cs_handler CsSM.cs_classes CsSM.cs_handlers CsSM.parse_braces TableInterp.step_rows_quiet
+  SmlTT.gen_sml SmlTT.sml_run SmlTT.camel_steps
+  CsSM.cs_handler CsSM.cs_classes CsSM.cs_handlers CsSM.parse_braces TableInterp.step_rows_quiet TableInterp.table_interp_quiet CsSM.run_cs
   Decls.decls_file Decls.refs_cpp Decls.refs_cs.
